@@ -576,6 +576,14 @@ func c15Observe(op c15Op) (o c15Obs) {
 		if !op.NoCaller {
 			opts = append(opts, zap.AddCaller())
 		}
+		if op.Var == "flip" {
+			// a stack-trace enabler whose answer CHANGES between two consecutive questions (a threshold lowered by another
+			// goroutine at that moment): "no" to the first question about an entry, "yes" to a second one. The logger must take
+			// ONE decision per entry — no trace here (the op's "stack" set is empty); a trace that is not the full chain is the
+			// symptom of a decision taken twice
+			asked := 0
+			opts[2] = zap.AddStacktrace(zap.LevelEnablerFunc(func(zapcore.Level) bool { asked++; return asked%2 == 0 }))
+		}
 		var lg *zap.Logger
 		if op.Ctor == "nop" {
 			// drop AddStacktrace: "no level configured" is the default. Named levels only: the default threshold is the Level
@@ -591,6 +599,11 @@ func c15Observe(op c15Op) (o c15Obs) {
 			// passes to Build must win over what the Config itself derives (its own AddCaller / AddStacktrace / ErrorOutput)
 			cfg := zap.Config{Level: zap.NewAtomicLevelAt(zapcore.Level(-128)), Development: op.Depth%2 == 1 && c15FELevel(op.FE, op.Lvl) != 3, Encoding: "json",
 				EncoderConfig: zap.NewProductionEncoderConfig(), DisableCaller: op.NoCaller, OutputPaths: []string{}, ErrorOutputPaths: []string{}}
+			if len(op.Stack) == 0 && c15FELevel(op.FE, op.Lvl) <= 5 {
+				// "no level configured" said the Config's way: DisableStacktrace, and no AddStacktrace option at all
+				cfg.DisableStacktrace = true
+				opts = append(opts[:2:2], opts[3:]...)
+			}
 			var err error
 			lg, err = cfg.Build(append([]zap.Option{zap.WrapCore(func(zapcore.Core) zapcore.Core { return core })}, opts...)...)
 			if err != nil {
@@ -1274,6 +1287,17 @@ func c15Gen(r *Rand, tier string, emit func(op any)) {
 					emit(op)
 				}
 			}
+		}
+	}
+	// 3c. the stack-trace enabler changes its answer between two questions about one entry
+	for _, fe := range []string{"L.Info", "L.Error", "L.Check", "S.Infow", "S.Errorf", "std.Print"} {
+		for d := 0; d <= 3; d++ {
+			op := mk("site", fe, c15Chain(r, r.Intn(2), strings.HasPrefix(fe, "S."), d), d, d)
+			op.Var, op.Ctor, op.Stack, op.NoCaller, op.Min = "flip", "", []int{}, d == 3, -1
+			if op.Lvl == 6 || op.Lvl == -2 || op.Lvl > 2 {
+				op.Lvl = 1
+			}
+			emit(op)
 		}
 	}
 	// beyond the stack
